@@ -23,7 +23,8 @@ RULE = ('operation lines from corpus + directed families (moduli x operand class
         'Lean model (L1 limb level ;; L0 canonical residue); distinct = distinct lines, non-trivial = some '
         'operand token longer than 2 hex digits')
 ASSUMPTIONS = ['only lines inside the documented preconditions are generated (a,b < p; p odd for mul_mod / div_by_2; 1 <= c < 2^64)',
-               'boxed operands always have the precision of the modulus (the crate debug_asserts it)']
+               'boxed operands always have the precision of the modulus (the crate debug_asserts it)',
+               '`c07.hook.*` lines call crate-internal functions through crypto_bigint::verif_hooks; sub_mod_with_carry and div_by_2 are also run outside their documented precondition (then only the limb model L1 is compared)']
 
 
 def moduli(rng, n, nrand):
@@ -97,6 +98,78 @@ def near_p(rng, p, n):
     return p - 1 - d
 
 
+def hook_lines(tier, rng):
+    """crate-internal functions through crypto_bigint::verif_hooks (`c07.hook.*`):
+    sub_mod_with_carry / sub_assign_mod_with_carry: inside the documented precondition (every boundary of
+      -p <= (a + carry*2^BITS) - b < p, both carries) the driver prints L0; a few lines outside it (L1 only, carry <= 1)
+    mac_by_limb (fixed + boxed): arbitrary a, b, c, carry incl. all-ones everywhere (largest possible carry out)
+    div_by_2 / div_by_2_boxed(_assign): odd p, reduced AND unreduced a (a >= p, a + p >= 2^BITS)"""
+    quick = tier == 'quick'
+    boxed = [1, 2, 3, 4, 5, 7, 8, 13, 16, 20] if quick else BOXED + [24, 32, 33, 48, 64]
+    for kind, widths in (('', FIXED), ('b', boxed)):
+        for n in widths:
+            K = 1 << (64 * n)
+            ones = K - 1
+            # ---- sub_mod_with_carry
+            ps = [1, 3, ones, K >> 1, (K >> 1) + 1, rng.getrandbits(64 * n) | (K >> 1), value(rng, n) or 1,
+                  rng.getrandbits(rng.randrange(1, 64 * n + 1)) or 1]
+            if not quick:
+                ps += [2, K - 2, (K >> 1) - 1, WMAX % K or 1] + [rng.getrandbits(64 * n) | (K >> 1) for _ in range(4)] + \
+                      [value(rng, n) or 1 for _ in range(4)]
+            for p in dict.fromkeys(ps):
+                ph = hx(p)
+                ds = [-p, -1, 0, 1, p - 1, rng.randrange(-p, p)]
+                if not quick:
+                    ds += [-p + 1, p - 2, -(p // 2), p // 2] + [rng.randrange(-p, p) for _ in range(4)]
+                for d in dict.fromkeys(ds):
+                    if not (-p <= d < p):
+                        continue
+                    # carry = 0: a - b = d
+                    if d >= 0:
+                        cands = [(ones, ones - d), (d + rng.randrange(K - d), None)] + ([] if quick else [(d, 0)])
+                    else:
+                        cands = [(0, -d), (rng.randrange(K + d), None)] + ([] if quick else [(ones + d, ones)])
+                    for a, b in cands:
+                        if b is None:
+                            b = a - d
+                        if 0 <= a < K and 0 <= b < K and a - b == d:
+                            yield f"c07.hook.{kind}sub_mod_with_carry {n} {hx(a)} 0 {hx(b)} {ph}"
+                    # carry = 1: (a + K) - b = d needs d >= 1, b in [K - d, K)
+                    if d >= 1:
+                        bs = [ones, rng.randrange(K - d, K)] + ([p] if K - d <= p < K else []) + ([] if quick else [K - d])
+                        for b in dict.fromkeys(bs):
+                            a = d + b - K
+                            if 0 <= a < K:
+                                yield f"c07.hook.{kind}sub_mod_with_carry {n} {hx(a)} 1 {hx(b)} {ph}"
+                # outside the precondition (driver prints L1 only): difference below -p / at or above p
+                outside = [(0, 0, ones), (ones, 1, 0), (value(rng, n), rng.randrange(2), value(rng, n))]
+                if not quick:
+                    outside += [(ones, 0, 0), (ones, 1, ones), (p % K, 1, 0)]
+                for a, c, b in outside:
+                    yield f"c07.hook.{kind}sub_mod_with_carry {n} {hx(a)} {c} {hx(b)} {ph}"
+            # ---- mac_by_limb
+            nr = 2 if quick else 12
+            avals = [0, ones, WMAX % K] + [rng.getrandbits(64 * n) for _ in range(nr)] + [value(rng, n) for _ in range(nr)]
+            cs = [0, 1, 2, WMAX, WMAX - 1, 1 << 63, 1 << 32] + [limb_choice(rng) for _ in range(2)]
+            for a in dict.fromkeys(avals):
+                for b in dict.fromkeys([ones, rng.getrandbits(64 * n)] + ([] if quick else [0, value(rng, n)])):
+                    for c in ([WMAX, rng.choice(cs), rng.getrandbits(64)] if quick else cs):
+                        for carry in dict.fromkeys([0, WMAX] + ([] if quick else [limb_choice(rng)])):
+                            yield f"c07.hook.{kind}mac_by_limb {n} {hx(a)} {hx(b)} {hx(c)} {hx(carry)}"
+            # ---- div_by_2 on reduced and unreduced operands
+            ps = [1, ones, (K >> 1) + 1, rng.getrandbits(64 * n) | 1, value(rng, n) | 1]
+            if not quick:
+                ps += [3, (K >> 1) - 1, K - 3, rng.getrandbits(64 * n) | (K >> 1) | 1] + [rng.getrandbits(64 * n) | 1 for _ in range(4)]
+            for p in dict.fromkeys(x for x in ps if 1 <= x < K):
+                avs = [0, p - 1, p, p + 1, ones, K - p, (K - p - 1) % K, rng.randrange(p), rng.getrandbits(64 * n)]
+                if not quick:
+                    avs += [1, 2, ones - 1, (K - p + 1) % K, K >> 1, value(rng, n)]
+                for a in dict.fromkeys(x for x in avs if 0 <= x < K):
+                    yield f"c07.hook.{kind}div_by_2 {n} {hx(a)} {hx(p)}"
+                    if kind == 'b' and rng.randrange(3) == 0:
+                        yield f"c07.hook.bdiv_by_2_assign {n} {hx(a)} {hx(p)}"
+
+
 def gen(tier, rng):
     quick = tier == 'quick'
     nmod = 2 if quick else 8
@@ -163,3 +236,6 @@ def gen(tier, rng):
                     yield f"c07.{kind}.mul_mod_special {n} {ah} {bh} {ch}"
                 for a in list(dict.fromkeys([a for a, _ in pairs]))[: (10 if quick else 40)]:
                     yield f"c07.{kind}.neg_mod_special {n} {hx(a)} {ch}"
+    # crate-internal functions through the hooks (emitted last from their own PRNG stream: the public families
+    # above are the same lines as before the hooks existed)
+    yield from hook_lines(tier, random.Random(rng.getrandbits(32)))
